@@ -372,6 +372,7 @@ def evaluate(groups, tier):
         corr = all(r.corr for r in pool)
         why = next((r.why for r in pool if not r.corr), None)
         detail = {"runs": len(pool), "distinct_versions": det, "classes": cl, "failures": fails[:4], "corr_break": why,
+                  "tie_prone_pairs": G.tie_census(g["case"]),
                   "flags": sorted({" ".join(r.flags) for r in pool})}
         results.append(("determinism", Outcome(dict(case_id, aspect="determinism"), corr, not fails, None, detail, nontriv)))
         # ---- aspect: the two visualisation files
@@ -509,6 +510,7 @@ def run(rep):
     nproj = 150 if quick else 1500
     nbase = 8 if quick else 32
     shapes = {}
+    ties = []
     batch = 50
     done = 0
     while done < nproj:
@@ -516,6 +518,7 @@ def run(rep):
         for _ in range(min(batch, nproj - done)):
             case, shape = G.gen_project(rng)
             shapes[shape] = shapes.get(shape, 0) + 1
+            ties.append(G.tie_census(case))
             mode = "zod" if (done % 2) else "none"
             if not quick or rng.random() < 0.15:
                 modes = ["none", "zod"]
@@ -529,6 +532,10 @@ def run(rep):
             rep.add(stream, [o])
     rep.extra["distribution"] = {"projects": nproj, "shapes": shapes, "cli_runs": total_runs,
                                  "base_runs_per_project_and_mode": nbase}
+    # names that collide under a coarser key (case, underscores, trailing digit, prefix): pairs per project
+    rep.extra["tie_prone_pairs_per_project"] = {
+        k: {"min": min(t[k] for t in ties), "mean": round(sum(t[k] for t in ties) / len(ties), 2),
+            "projects_with_a_pair": sum(1 for t in ties if t[k] > 0)} for k in ("types", "commands", "events", "fields", "files")}
     inside = sum(st["in_known_class"] for st in rep.streams.values())
     rep.extra["inside_known_class"] = inside
     rep.extra["outside_every_class"] = rep.outcomes - inside
